@@ -308,10 +308,13 @@ def run(tier, seed, replay=None):
         binary = build_driver(cmd="c19drv")
         if replay:
             return do_replay(work, binary, tier, seed, replay)
+        import watcher
         with ThreadPoolExecutor(max_workers=2) as ex:
             d = ex.submit(design_run, work, verdict)
+            wpart = ex.submit(watcher.run_part, work, verdict, tier, seed)   # the secrets watcher (Watcher.tla)
             lines = execute(work, binary, tier, seed, "main")
             d.result()
+            wrec = wpart.result()
         if not lines:
             raise Infra("the drivers produced no events")
         v = judge(work, lines, "main")
@@ -332,6 +335,14 @@ def run(tier, seed, replay=None):
                 name = re.sub(r"[^A-Za-z0-9]+", "-", ev["id"])[:60]
                 path = save_replay(PROP, name, [ev]) if len(verdict.violations) < 20 else "(not saved)"
                 verdict.violation(path, "%s %s" % (reason, json.dumps(f, sort_keys=True)))
+
+        for reason, facts, wl in wrec:
+            k = match_known(known, facts)
+            if k:
+                verdict.known_finding(k)
+            else:
+                path = save_replay(PROP, "watcher-%s" % reason, wl)
+                verdict.violation(path, "%s %s" % (reason, json.dumps(facts, sort_keys=True)))
 
         selftest = binding_selftest(work, lines, v)
         per_entry = {}
@@ -374,6 +385,14 @@ def run(tier, seed, replay=None):
 
 def do_replay(work, binary, tier, seed, replay):
     evs = read_ndjson(os.path.abspath(replay))
+    if evs and "tr" in evs[0]:
+        # a recorded round of the secrets watcher: judged again as it was recorded
+        import watcher
+        v = watcher.judge(work, evs, "replay")
+        for b in v["bad"]:
+            print("VIOLATION property=%s replay=%s  # %s" % (PROP, replay, ",".join(b["reasons"])))
+        print("replayed %d watcher events, %d rejected" % (len(evs), len(v["bad"])))
+        return 1 if v["bad"] else 0
     ids = {e["id"]: e.get("input", "") for e in evs}
     lines = execute(work, binary, tier, seed, "replay", only=ids)
     v = judge(work, lines, "replay")
